@@ -3,6 +3,7 @@ package vc
 import (
 	"encoding/json"
 	"fmt"
+	"regexp"
 	"sort"
 	"strings"
 
@@ -23,6 +24,7 @@ type Engine struct {
 	modsets   map[*ssa.Function]map[string]bool
 	modBusy   map[*ssa.Function]bool
 	assumed   map[string]bool
+	ghostDefs []ghostDef
 }
 
 func NewEngine(env *core.Env, p *load.Program) *Engine {
@@ -333,7 +335,7 @@ func (e *Engine) RunSelection(s Selection) (*core.Result, error) {
 			if l.Name == name {
 				found = true
 				res.Obls = append(res.Obls, &core.Obl{Name: "lemma/" + name, Kind: "lemma", Tier: core.Proved, Detail: "lemma " + name + " (pure SMT over the specification vocabulary)",
-					Query: prelude + e.substStrLits(l.Script) + "\n"})
+					Query: prelude + e.GhostFor(e.substStrLits(l.Script)) + e.substStrLits(l.Script) + "\n"})
 			}
 		}
 		if !found {
@@ -359,16 +361,69 @@ func (e *Engine) RunSelection(s Selection) (*core.Result, error) {
 
 // Prelude = generated universe prelude + ghost definitions + axioms of the contract file.
 func (e *Engine) Prelude() string {
-	var tail strings.Builder
+	// ghost definitions are NOT part of the common prelude: each query gets only the ones it mentions
+	// (GhostFor), so that adding a definition for one function cannot change the solvers' behaviour on another
+	e.ghostDefs = nil
 	for _, gd := range e.Spec.Ghost {
-		tail.WriteString(e.substStrLits(gd) + "\n")
+		txt := e.substStrLits(gd)
+		d := ghostDef{text: txt, uses: map[string]bool{}}
+		if sx, _, err := core.ParseSexp(txt); err == nil && sx != nil && !sx.IsAtom() && len(sx.List) >= 2 && sx.List[1].IsAtom() {
+			d.name = sx.List[1].Atom
+		}
+		for _, tok := range symbolTokens(txt) {
+			d.uses[tok] = true
+		}
+		e.ghostDefs = append(e.ghostDefs, d)
 	}
+	var tail strings.Builder
 	for i, ax := range e.Spec.Axioms {
 		if e.Spec.AxiomNames[i] == "" {
 			tail.WriteString("(assert " + e.substStrLits(ax) + ")\n")
 		}
 	}
 	return e.U.Prelude() + tail.String()
+}
+
+type ghostDef struct {
+	name, text string
+	uses       map[string]bool
+}
+
+var symTokRe = regexp.MustCompile(`[A-Za-z_][A-Za-z0-9_.!]*`)
+
+func symbolTokens(s string) []string { return symTokRe.FindAllString(s, -1) }
+
+// GhostFor returns the ghost declarations/definitions (in file order) that body mentions, transitively.
+func (e *Engine) GhostFor(body string) string {
+	need := map[string]bool{}
+	toks := map[string]bool{}
+	for _, t := range symbolTokens(body) {
+		toks[t] = true
+	}
+	changed := true
+	for changed {
+		changed = false
+		for i := range e.ghostDefs {
+			d := &e.ghostDefs[i]
+			if d.name == "" || need[d.name] {
+				continue
+			}
+			if toks[d.name] {
+				need[d.name] = true
+				changed = true
+				for u := range d.uses {
+					toks[u] = true
+				}
+			}
+		}
+	}
+	var sb strings.Builder
+	for _, d := range e.ghostDefs {
+		if d.name == "" || need[d.name] {
+			sb.WriteString(d.text + "\n")
+		}
+	}
+	return sb.String()
 }
 
 // substStrLits replaces "literal" tokens by their string ids in ghost text.
